@@ -17,8 +17,8 @@ import (
 // file-system operations n it performs once the snapshotter is running; then
 // EVERY k < n is one sub-case: operation k fails once (writes: with 0 or some
 // bytes applied), everything after succeeds. After the history the harness
-// advances the (owned) clock past the 30 s error-recovery interval, applies
-// further membership and clock changes, shuts down cleanly and restarts.
+// applies further membership and clock changes right away (the owned clock is
+// not advanced), shuts down cleanly and restarts.
 // Oracle: the process survives (crash oracle of the driver), every event is
 // still forwarded, and the restart reflects every change made after the fault
 // window: the members touched afterwards have the model's aliveness and the
@@ -106,13 +106,17 @@ func runC12(c *snapCase, failAt int, x *vkit.Ctx) (c12Result, bool) {
 
 	// --- after the fault has cleared: let the recovery interval pass, then change things
 	tailStart := r.step + 1
+	// No waiting: with a single transient fault the snapshotter's own recovery
+	// (the compaction tryAppend attempts on the first failing append) succeeds at
+	// once, so the very next changes have to be recorded; the 30 s interval only
+	// spaces out *repeated* recovery attempts. The owned clock is therefore NOT
+	// advanced here (an earlier version of this check advanced it by 31 s first
+	// and so forgave a recovery gate that was wrongly closed).
 	tail := []hOp{
-		{K: opAdvance, V: 31000},
 		{K: opJoin, M: len(cc.Names) - 1, A: 2},
 		{K: opWitness, V: uint64(r.lc.Time()) + 5},
 		{K: opUser, V: r.maxEvent + 3},
 		{K: opQuery, V: r.maxQuery + 4},
-		{K: opAdvance, V: 31000},
 		{K: opTick},
 		{K: opLeave, M: 0},
 		{K: opJoin, M: 0, A: 1},
